@@ -85,6 +85,18 @@ pub struct Payload {
     pub pairs: std::collections::HashMap<String, u64>,
 }
 
+/// A message with SHARED pointers (rkyv writes the pointee once per serialisation and keeps a registry of addresses
+/// while it does): the same `Arc` may sit in one message twice and in many messages one after the other.
+#[repr(C)]
+#[derive(Serialize, Deserialize, Archive, PartialEq, Debug, Clone)]
+pub struct SharedMsg {
+    pub tag: u64,
+    pub pad: Vec<u8>,
+    pub a: std::sync::Arc<Vec<u8>>,
+    pub b: std::sync::Arc<Vec<u8>>,
+    pub name: std::sync::Arc<String>,
+}
+
 #[repr(C)]
 #[derive(Serialize, Deserialize, Archive, PartialEq, Debug, Clone)]
 pub struct Fail {
@@ -301,6 +313,15 @@ impl RpcService for EchoSvc {
         registry.add_handler::<Fail>();
         registry.add_handler::<Fetch>();
         registry.add_handler::<Wide>();
+        registry.add_handler::<SharedMsg>();
+    }
+}
+
+#[datacake_rpc::async_trait]
+impl Handler<SharedMsg> for EchoSvc {
+    type Reply = SharedMsg;
+    async fn on_message(&self, msg: Request<SharedMsg>) -> Result<Self::Reply, Status> {
+        msg.deserialize_view().map_err(Status::internal)
     }
 }
 
@@ -566,6 +587,58 @@ impl Domain for RpcDomain {
                     "vs" => rt!(Vec<String>, (0..(at(0) as usize * 256 + at(1) as usize)).map(|i| format!("key-{}", i)).collect()),
                     _ => "bad-op".to_string(),
                 }
+            },
+            // roundtrip-shared <seed> <n> <wire 0|1>: n messages with shared pointers, one after the other ON ONE THREAD, built from a
+            // small pool of `Arc`s (the same pointee in consecutive messages at different positions; pointees dropped and
+            // re-created in between, so that the allocator hands addresses out again); every one must come back equal - from its
+            // frame, and (wire = 1) from the echo handler over loopback.  Whatever a serialisation keeps must not outlive it.
+            "roundtrip-shared" => {
+                use std::sync::Arc;
+                let mut s = p_u64(t[1]);
+                let n = p_u64(t[2]) as usize;
+                let wire = t[3] == "1";
+                let mut pool: Vec<Arc<Vec<u8>>> = (0..3).map(|i| Arc::new(vec![i as u8 + 1; 5 + i * 7])).collect();
+                let mut names: Vec<Arc<String>> = (0..2).map(|i| Arc::new(format!("shared-name-{}", i))).collect();
+                let (mut ok, mut bad, mut first_bad) = (0usize, 0usize, String::new());
+                if wire { self.server(); }
+                for k in 0..n {
+                    let r = splitmix(&mut s);
+                    if r % 4 == 0 {
+                        // drop a pointee and make a new one of the same size: very likely at the same address
+                        let i = (r >> 8) as usize % pool.len();
+                        let len = pool[i].len();
+                        pool[i] = Arc::new(vec![0u8; 0]);
+                        pool[i] = Arc::new((0..len).map(|j| (j as u64 + r) as u8).collect());
+                    }
+                    if r % 7 == 0 {
+                        let i = (r >> 12) as usize % names.len();
+                        names[i] = Arc::new(String::new());
+                        names[i] = Arc::new(format!("shared-name-{}", r % 10));
+                    }
+                    let m = SharedMsg {
+                        tag: r,
+                        pad: vec![0xEE; (r >> 16) as usize % 96],
+                        a: pool[(r >> 24) as usize % pool.len()].clone(),
+                        b: pool[(r >> 32) as usize % pool.len()].clone(),
+                        name: names[(r >> 40) as usize % names.len()].clone(),
+                    };
+                    let frame = datacake_rpc::to_view_bytes(&m).expect("serialize");
+                    let same = std::panic::catch_unwind(std::panic::AssertUnwindSafe(|| {
+                        DataView::<SharedMsg>::using(frame.clone()).map(|v| v.deserialize_view().map(|d| d == m).unwrap_or(false)).unwrap_or(false)
+                    })).unwrap_or(false);
+                    let same_wire = !wire || {
+                        let client = RpcClient::<EchoSvc>::new(Channel::connect(self.addr));
+                        match runtime().block_on(client.send(&m)) {
+                            Ok(reply) => reply.deserialize_view().map(|d| d == m).unwrap_or(false),
+                            Err(_) => false,
+                        }
+                    };
+                    if same && same_wire { ok += 1; } else {
+                        bad += 1;
+                        if first_bad.is_empty() { first_bad = format!(" first_bad=#{}:frame={}:wire={}", k, same, same_wire); }
+                    }
+                }
+                format!("shared ok={} bad={}{}", ok, bad, first_bad)
             },
             "roundtrip-status" => {
                 let v = Status { code: code_of(p_u64(t[1]) as u8), message: String::from_utf8(unhex(t[2])).expect("utf8") };
